@@ -120,7 +120,10 @@ class LeakyReLU(Transform):
             raise ValueError("Slope must be positive.")
         super().__init__()
         self.negative_slope = negative_slope
-        self.log_negative_slope = torch.log(torch.as_tensor(self.negative_slope))
+        # In double precision: the constant is cast to the dtype of the inputs when it is used.
+        self.log_negative_slope = torch.log(
+            torch.as_tensor(self.negative_slope, dtype=torch.float64)
+        )
 
     def forward(self, inputs, context=None):
         outputs = F.leaky_relu(inputs, negative_slope=self.negative_slope)
